@@ -116,6 +116,35 @@ theorem lower_refines {σ : Type} (ds : List Decl) (sem : Sem σ) (p : Block) (q
     (execCB sem q s).1 = (execB sem p s).1 ∧ mapTrace ds (execB sem p s).2 = some (execCB sem q s).2 :=
   lowerBlock_refines ds sem p q h s
 
+/-- snax_gemmx launch with channel groups (launch op carrying `m` / `shift_vals` / `mult_vals`): the lowered
+code, run on any data semantics, produces exactly the accfg-level meaning of the op mapped through the declared
+map — `M` and `temporal_loop_bound` := `m // groups`, one streamer launch, then FOR EVERY GROUP (the first one
+included) that group's packed shift words to `shift_*`, its multipliers to `mult_*`, the `launch_gemmx` write
+and a poll of the barrier, in this order.  (Instance of `lower_refines`; with `launch_observes` every
+`launch_gemmx` write therefore finds the shift / mult registers holding the values of ITS group.) -/
+theorem group_launch_refines {σ : Type} (ds : List Decl) (sem : Sem σ) (acc : String) (ps : List (String × Var))
+    (n : Nat) (m : Int) (shifts mults : List Int) (l : List CStmt)
+    (h : lowerStmt ds (.launchG acc ps n m shifts mults) = .ok l) (s : σ) :
+    (execCL sem l s).1 = s ∧
+    mapTrace ds (launchGEvents acc (fun f => match lastLookup ps f with | some v => sem.val v s | none => 0)
+      n m shifts mults) = some (execCL sem l s).2 := by
+  have := lowerStmt_refines ds sem (.launchG acc ps n m shifts mults) l h s
+  unfold R at this
+  simp only [execS] at this
+  exact this
+
+/-- non-vacuity: two groups of four channels; group 0 is programmed like group 1 -/
+example :
+    lowerStmt [(⟨"g", [("M", 10), ("temporal_loop_bound", 11), ("shift_0", 20), ("mult_0", 30),
+        ("mult_1", 31), ("mult_2", 32), ("mult_3", 33)], [("launch_streamer", 40), ("launch_gemmx", 41)],
+        50, .poll3⟩ : Decl)]
+      (.launchG "g" [("launch_streamer", 1), ("launch_gemmx", 2)] 4 16 [1, 2, 3, 4, 5, 6, 7, 8]
+        [3, 5, 7, 11, 13, 17, 19, 23])
+    = .ok [.csrwC 10 8, .csrwC 11 8, .csrw 40 1 false false,
+        .csrwC 20 0x04030201, .csrwC 30 3, .csrwC 31 5, .csrwC 32 7, .csrwC 33 11, .csrw 41 2 false false, .poll 50,
+        .csrwC 20 0x08070605, .csrwC 30 13, .csrwC 31 17, .csrwC 32 19, .csrwC 33 23, .csrw 41 2 false false, .poll 50] := by
+  rfl
+
 /-- No `!accfg.state`-typed operand, result or block argument is left anywhere in the lowered program. -/
 theorem lower_no_state (ds : List Decl) (p : Block) (q : CBlock) (h : lowerBlock ds p = .ok q) :
     q.stateCount = 0 := lowerBlock_noState ds p q h
